@@ -1,7 +1,7 @@
 (* C01 - property theorems (statements only; the proofs live in Acme.C01.ProofsXxx / Acme.C07.ProofsXxx). *)
 From Coq Require Import ZArith List Sorted.
 From Acme.C01 Require Import Layout State Model ProofsLayout ProofsInv Refuted ProofsT1 ProofsSpec ProofsFrame ProofsAccept Examples.
-From Acme.C07 Require Import Proofs ProofsReg ProofsFinal ProofsEffect ProofsRange.
+From Acme.C07 Require Import Proofs ProofsReg ProofsFinal ProofsEffect ProofsRange ProofsNames.
 Open Scope Z_scope.
 
 (* the boolean predicate evaluated on the implementation's snapshots is the declarative one *)
@@ -267,3 +267,11 @@ Theorem payload_range_all_depths : forall ops, ok_hist_f ops -> forall m x, in_t
   0 <= start_bit (run ops) x /\ start_bit (run ops) x + sz (run ops) x <= 8 * gbytes (run ops) m.
 Proof. exact range_reachable. Qed.
 Print Assumptions payload_range_all_depths.
+
+(* with the name tables inside an invariant (InvN, Properties/C07.v) the raw name condition of
+   insert_accepted_iff_fits disappears for a signal that is in no layout: it is accepted exactly when the
+   requested range is inside the payload and free *)
+Theorem insert_detached_accepted_iff_fits : forall s m x b, InvA s -> InvM s -> InvR s -> InvN s -> ~ attached s x ->
+  (is_ok (snd (step_insert s m x b)) <-> fits_insert s m x b).
+Proof. exact insert_detached_accepted_iff. Qed.
+Print Assumptions insert_detached_accepted_iff_fits.
